@@ -79,6 +79,14 @@ def attr_documents():
             q = '"%s"' % v
             yield "{| %s=%s\n|+ %s=%s | c\n|- %s=%s\n| %s=%s | x\n! %s=%s | y\n|}" % (a, q, a, q, a, q, a, q, a, q)
             yield "<gallery %s=%s>\nFile:A.png|x\n</gallery>[[File:A.png|%s=%s|thumb|c]]" % (a, q, a, v)
+    # numbers longer than the interpreter converts, wherever markup takes a number
+    h = W.HUGE_INT
+    for body in ("rect 1 2 3 %s [[T]]", "circle 1 %s 3 [[T]]", "poly 1 2 %s 4 [[T]]", "rect %s 2 3 4 [[T]]"):
+        yield "<imagemap>\nFile:a.png|100px\n%s\n</imagemap>" % (body % h)
+    for t in ("&#%s;", "&#x%s;", "{{#expr:%s+1}}", "{{padleft:x|%s}}", "{{#time:Y|%s}}", "{{formatnum:%s}}", "<ol start=%s><li>x</ol>",
+              "<gallery perrow=%s widths=%s>\nFile:A.png\n</gallery>", "{|\n| colspan=%s | x\n|}", "<li value=%s>x", "{{#titleparts:a/b|%s}}",
+              "<timeline>\nImageSize = width:%s\n</timeline>", "<hiero>%s</hiero>", "[[File:A.png|page=%s]]", "<font size=%s>x</font>"):
+        yield t.replace("%s", h)
     for o1 in W.IMG_OPTS:
         for o2 in W.IMG_OPTS:
             yield "[[File:Pic.png|%s|%s|cap]] [[Image:a.jpg|%s]]" % (o1, o2, o1)
